@@ -16,6 +16,11 @@
 //!   nx16 flags src | aac flags src | fqz lens src | names src | gz level src | bz2 level src | xz level src
 //!   big codec param shape len seed     (input built inside `run`; > 1 MiB inputs)
 
+#[path = "../shared/c08_classes.rs"]
+mod c08_classes;
+#[path = "../shared/c08_nx16_classes.rs"]
+mod c08_nx16_classes;
+
 use noodles_cram::codecs::{aac, rans_4x8::Order, rans_nx16};
 use noodles_cram::verif as v;
 use nv::{Case, CaseWriter, Obs, Outcome, Rng, errkind, guarded, hex};
@@ -415,7 +420,14 @@ fn roundtrip(
     };
     let obs = if want_obs { long_obs(&e) } else { "-".to_string() };
     match guarded(AssertUnwindSafe(|| dec(&e))) {
-        Outcome::Done(Ok(d)) if d == src => Obs::ok(obs, !src.is_empty()),
+        Outcome::Done(Ok(d)) if d == src => {
+            let mut o = Obs::ok(obs, !src.is_empty());
+            if let Some(k) = &known {
+                // diagnostic only: the class predicate over-approximates for this input
+                o.verdict = format!("ok in-known-class-but-passes:{k}");
+            }
+            o
+        }
         Outcome::Done(Ok(d)) => {
             let at = d.iter().zip(src).position(|(a, b)| a != b).unwrap_or(d.len().min(src.len()));
             Obs::fail(obs, &tag("decode-mismatch"), format!("len={} decoded_len={} first_diff_at={at}", src.len(), d.len()))
@@ -474,21 +486,40 @@ fn r4d_case(c: &Case) -> Obs {
 fn nx16_case(flags: u8, src: &[u8]) -> Obs {
     let f = rans_nx16::Flags::from(flags);
     let n = src.len();
-    roundtrip(&format!("nx16-f{flags:02x}"), src, None, || v::rans_nx16_encode(f, src), |e| v::rans_nx16_decode(e, n), false)
+    let known = c08_nx16_classes::nx16_known_class(flags, src).map(String::from);
+    if known.as_deref().is_some_and(|k| k.ends_with("zero-max")) {
+        return Obs::fail("-", known.as_deref().unwrap(), "not executed: the encoder would never terminate");
+    }
+    roundtrip(&format!("nx16-f{flags:02x}"), src, known, || v::rans_nx16_encode(f, src), |e| v::rans_nx16_decode(e, n), false)
 }
 
 fn aac_case(flags: u8, src: &[u8]) -> Obs {
     let f = aac::Flags::from(flags);
     let n = src.len();
-    roundtrip(&format!("aac-f{flags:02x}"), src, None, || v::aac_encode(f, src), |e| v::aac_decode(e, n), false)
+    let known = c08_classes::aac_known_class(flags, src).map(String::from);
+    roundtrip(&format!("aac-f{flags:02x}"), src, known, || v::aac_encode(f, src), |e| v::aac_decode(e, n), false)
+}
+
+fn fqz_known_class(lens: &[usize], _src: &[u8]) -> Option<String> {
+    if lens.is_empty() {
+        return Some("fqzcomp-empty-input".into()); // encoder indexes lens[0]
+    }
+    if lens.len() > 1 && lens[..lens.len() - 1].iter().any(|&l| l == 0) {
+        return Some("fqzcomp-zero-length-record".into()); // `p -= 1` underflows on the next quality
+    }
+    None
 }
 
 fn fqz_case(lens: &[usize], src: &[u8]) -> Obs {
-    roundtrip("fqzcomp", src, None, || v::fqzcomp_encode(lens, src), |e| v::fqzcomp_decode(e), false)
+    roundtrip("fqzcomp", src, fqz_known_class(lens, src), || v::fqzcomp_encode(lens, src), |e| v::fqzcomp_decode(e), false)
 }
 
 fn names_case(src: &[u8]) -> Obs {
-    roundtrip("names", src, None, || v::name_tokenizer_encode(src), |e| v::name_tokenizer_decode(e), false)
+    let known = c08_classes::names_known_class(src).map(String::from);
+    if known.as_deref() == Some("names-nx16-normalize-zero-max") {
+        return Obs::fail("-", "names-nx16-normalize-zero-max", "not executed: the Nx16 encoder would never terminate");
+    }
+    roundtrip("names", src, known, || v::name_tokenizer_encode(src), |e| v::name_tokenizer_decode(e), false)
 }
 
 fn ext_case(kind: &str, level: u32, src: &[u8]) -> Obs {
@@ -508,6 +539,20 @@ const SHAPES: &[&str] = &["uniform", "single", "two", "skewed", "runs", "all256"
 fn shaped(rng: &mut Rng, shape: &str, len: usize) -> Vec<u8> {
     match shape {
         "uniform" => rng.bytes(len),
+        "f8" => vec![65u8; 1_048_833],
+        "f8ok" => vec![65u8; 1_048_832],
+        "f8b" => {
+            // DESIGN F8b: 127 symbols x 4128, one x 3871, 128 symbols x 1 (528,255 bytes)
+            let mut v = Vec::with_capacity(528_255);
+            for s in 0..127u8 {
+                v.extend(std::iter::repeat(s).take(4128));
+            }
+            v.extend(std::iter::repeat(127u8).take(3871));
+            for s in 128..=255u8 {
+                v.push(s);
+            }
+            v
+        }
         "single" => {
             let s = *rng.pick(&[0u8, 1, 2, 65, 127, 128, 254, 255]);
             vec![s; len]
@@ -873,6 +918,12 @@ fn generate(rng: &mut Rng, tier: &str, w: &mut CaseWriter) {
         w.push(k, vec!["6".into(), "_".into()]);
     }
 
+    // ---- witnesses of the normalisation defects (DESIGN F8, F8b) and the last good size
+    for shape in ["f8", "f8ok", "f8b"] {
+        w.push("big", vec!["r4".into(), "0".into(), shape.into(), "0".into(), "0".into()]);
+    }
+    w.push("fqz", vec!["5,0,5".into(), hex(&[30u8; 10])]);
+    w.push("fqz", vec!["4,4,0".into(), hex(&[30u8; 8])]);
     // ---- big inputs, built inside `run`
     if thorough {
         for (codec, param) in [("r4", 0u64), ("r4", 1), ("nx16", 0), ("nx16", 1), ("nx16", 0x04), ("nx16", 0xc1), ("aac", 0), ("aac", 0x41), ("gz", 6), ("bz2", 6), ("xz", 3), ("fqz", 100)] {
